@@ -10,6 +10,8 @@ R4.4  path-level / operation-level parameters are merged by (name, in) with oper
       argument names are de-duplicated with path parameters keeping the plain name
 R4.5  optional => omitted when None: required parameters use the plain entry, optional ones the conditional unpack
 R4.6  one sanitizer for URL holes and signature names
+R4.12 the path template reaches the URL unchanged apart from placeholder renaming (no strip / replace / case change / inserted text)
+R4.13 the overload implementation selects a media type's branch by the presence of that media type's body argument
 R4.10 an object occurring twice in a body is serialised twice (visited set = recursion stack)   [= R16.2 bookkeeping instance]
 R4.11 the transport forwards json/data/files/params unchanged, also when they are empty/falsy      [= R17.3]
 R4.9  a supplied header parameter reaches the wire with the caller's value: in the bundled transport per-request
@@ -177,6 +179,8 @@ def run(repo: Repo, rep: Report, tier: str) -> None:
                       "location): e.g. a path-level header `version` disappears when the operation declares a query `version`", po.loc())
     reservation_rule(pp, rep, "R4.4")
 
+    rule_path_template_verbatim(repo, rep, "R4.12")
+    rule_body_argument_selects_branch(repo, rep, "R4.13")
     # ---------------------------------------------------------------- R4.6 one sanitizer
     sites = {
         f"{ua.relpath}:_build_url_with_path_vars": ua.classes["EndpointUrlArgsGenerator"].methods.get("_build_url_with_path_vars"),
@@ -318,3 +322,128 @@ class _Relabel:
 
     def count(self, *a, **k):
         pass
+
+
+# ------------------------------------------------------------------------------------------------ R4.12 the path template is not edited
+STR_EDITS = {"strip", "lstrip", "rstrip", "lower", "upper", "title", "capitalize", "casefold", "replace", "removeprefix", "removesuffix", "split", "rsplit",
+             "partition", "rpartition", "translate", "join", "format", "encode", "expandtabs", "swapcase", "zfill", "center", "ljust", "rjust"}
+
+
+def rule_path_template_verbatim(repo: Repo, rep, rule: str = "R4.12") -> None:
+    """The request URL is the base URL followed by the operation's path template with each `{variable}` renamed to the argument that
+    carries it - and nothing else: `/items/` and `/items` are different resources.  In the function that builds the URL f-string the
+    path parameter flows into the result only through the placeholder-renaming `re.sub` (a pattern that matches `{...}` groups only);
+    no other string operation touches it, and no literal text is placed between the base-URL expression and the path."""
+    ua = repo.module("visit.endpoint.generators.url_args_generator")
+    fn = ua.classes["EndpointUrlArgsGenerator"].methods.get("_build_url_with_path_vars") if "EndpointUrlArgsGenerator" in ua.classes else None
+    if fn is None:
+        raise AnalysisError(f"{rule}: anchor vanished: EndpointUrlArgsGenerator._build_url_with_path_vars")
+    path_param = next((p for p in fn.params if p != "self"), None)
+    if path_param is None:
+        raise AnalysisError(f"{rule}: _build_url_with_path_vars has no path parameter")
+    rets = [r.value for r in own_nodes(fn.node) if isinstance(r, ast.Return) and r.value is not None]
+    rep.require(bool(rets), f"{rule}: _build_url_with_path_vars returns nothing (anchor)")
+    sites = [(ua, fn, path_param, r) for r in rets]
+    # the multi-content-type implementation builds its URL in place, from `op.path`
+    mg = repo.module("visit.endpoint.generators.endpoint_method_generator")
+    for f2 in mg.functions.values():
+        for c in calls_in(f2.node):
+            if isinstance(c.func, ast.Attribute) and c.func.attr == "write_line" and c.args and isinstance(c.args[0], ast.JoinedStr) and "base_url" in full(c.args[0]) \
+                    and any(isinstance(v, ast.FormattedValue) for v in c.args[0].values):
+                sites.append((mg, f2, "__path__", c.args[0]))
+    for smod, fn, path_param, rv in sites:
+        L = Locals(fn.node)
+        r = rv
+        sub = f"{smod.relpath}:{fn.name} `{norm(rv)[:50]}`"
+        e = L.inline(rv, stop=(path_param,))
+        if path_param == "__path__":
+            # `<op>.path` is the source: name it like a parameter
+            import copy as _copy
+
+            class _P(ast.NodeTransformer):
+                def visit_Attribute(self, node):  # noqa: N802
+                    if node.attr == "path" and isinstance(node.value, ast.Name) and node.value.id in fn.params:
+                        return ast.copy_location(ast.Name(id="__path__", ctx=ast.Load()), node)
+                    return self.generic_visit(node)
+
+            e = _P().visit(_copy.deepcopy(e))
+        problems: List[str] = []
+        # (a) operations applied to a value derived from the path parameter
+        for node in ast.walk(e):
+            if isinstance(node, ast.Call) and isinstance(node.func, ast.Attribute) and node.func.attr in STR_EDITS and path_param in names_in(node.func.value):
+                problems.append(f"`.{node.func.attr}(...)` is applied to the path")
+            if isinstance(node, ast.Subscript) and path_param in names_in(node.value):
+                problems.append("the path is sliced / indexed")
+            if isinstance(node, ast.Call) and dotted(node.func) in ("re.sub", "re.subn") and len(node.args) >= 3 and path_param in names_in(node.args[2]):
+                pat = const_str(node.args[0])
+                if pat is None or not (pat.startswith("{") or pat.startswith(r"\{")) or not pat.rstrip(")").endswith("}"):
+                    problems.append(f"re.sub pattern {pat!r} is not confined to `{{...}}` placeholders")
+            elif isinstance(node, ast.Call) and path_param in [n_ for a in node.args for n_ in names_in(a)] and dotted(node.func) not in ("str",) \
+                    and not (dotted(node.func) in ("re.sub", "re.subn")) and not (isinstance(node.func, ast.Attribute) and node.func.attr in STR_EDITS):
+                problems.append(f"the path is passed through `{norm(node.func)}(...)`")
+        # (b) literal text between the base-URL hole and the path hole
+        if isinstance(e, ast.JoinedStr):
+            vals = e.values
+            for i, v in enumerate(vals):
+                if isinstance(v, ast.FormattedValue) and path_param in names_in(v.value):
+                    before = vals[i - 1] if i > 0 else None
+                    txt = str(before.value) if isinstance(before, ast.Constant) else ""
+                    if txt and not txt.endswith("}}") and not txt.endswith("}"):
+                        problems.append(f"literal text {txt[-8:]!r} is inserted in front of the path")
+                    after = vals[i + 1] if i + 1 < len(vals) else None
+                    atxt = str(after.value) if isinstance(after, ast.Constant) else ""
+                    if atxt not in ('"', "'", ""):
+                        problems.append(f"literal text {atxt[:8]!r} is appended to the path")
+        elif path_param in names_in(e):
+            rep.error(f"{rule}: the URL template of {fn.name} is not an f-string (`{norm(e)[:60]}`): not understood")
+            continue
+        if not (path_param in names_in(e)):
+            problems.append("the path parameter does not reach the returned template")
+        if problems:
+            rep.violation(rule, sub, f"{fn.fq}|path-edited|{sorted(set(problems))[0][:40]}",
+                          f"the URL is not base URL + path template: {sorted(set(problems))}; e.g. a template ending in `/` (`/items/`) or containing `//` is requested under a different path", fn.loc(r))
+        else:
+            rep.ok(rule, sub, "the path template reaches the URL f-string through the placeholder-renaming re.sub only", fn.loc(r))
+
+
+# ------------------------------------------------------------------------------------------------ R4.13 the body argument selects its own branch
+def rule_body_argument_selects_branch(repo: Repo, rep, rule: str = "R4.13") -> None:
+    """An operation with several request media types gets one `@overload` per media type (each with its own body parameter and its own
+    `content_type` default) and a single implementation whose `content_type` default is one fixed media type.  A caller of the files /
+    form variant therefore reaches the implementation with only *its* body argument set.  The `if` / `elif` chain the implementation
+    emits per media type must select the branch by that argument (`<body param> is not None`); a chain keyed on `content_type` alone
+    sends every call that relies on an overload default through the branch of the implementation's default - without its body."""
+    mg = repo.module("visit.endpoint.generators.endpoint_method_generator")
+    og = repo.module("visit.endpoint.generators.overload_generator")
+    # does the implementation signature give content_type a constant default?
+    const_default = False
+    for f in og.functions.values():
+        for c in ast.walk(f.node):
+            if isinstance(c, ast.Constant) and isinstance(c.value, str) and re.match(r"content_type:\s*str\s*=\s*[\"']", c.value):
+                const_default = True
+    n = 0
+    for fn in mg.functions.values():
+        for lp in [x for x in own_nodes(fn.node) if isinstance(x, ast.For) and "content" in norm(x.iter) and "request_body" in norm(x.iter)]:
+            L = Locals(fn.node)
+            conds = []
+            for c in calls_in(lp):
+                if isinstance(c.func, ast.Attribute) and c.func.attr == "write_line" and c.args:
+                    t = template_of(c.args[0], fn.node)
+                    if t is not None and re.match(r"\s*(if|elif)\b", t.text) and t.text.rstrip().endswith(":"):
+                        conds.append((c, t))
+            if not conds:
+                continue
+            n += 1
+            sub = f"{mg.relpath}:{fn.qualname} per-media-type dispatch"
+            by_arg = [(c, t) for c, t in conds if "is not None" in t.text and any("name" in full(h) for h in t.holes)]
+            if len(by_arg) == len(conds):
+                rep.ok(rule, sub, f"{len(conds)} branch condition template(s), each `<body parameter of the media type> is not None`", fn.loc(conds[0][0]))
+            elif const_default:
+                bad = [t.text.replace(HOLE, "{}").strip() for c, t in conds if (c, t) not in by_arg]
+                rep.violation(rule, sub, f"{fn.fq}|dispatch-not-by-argument",
+                              f"the branch of a media type is selected by `{bad[0]}` and not by the presence of its body argument, while the implementation's `content_type` "
+                              "default is one fixed media type: a call through the files / form overload (which sets only its own argument) runs the default branch and is sent without a body",
+                              fn.loc(conds[0][0]))
+            else:
+                rep.ok(rule, sub, "dispatch on content_type; the implementation signature gives content_type no constant default", fn.loc(conds[0][0]))
+    rep.require(n >= 1, f"{rule}: the per-media-type dispatch of the overload implementation was not found (anchor)")
